@@ -130,12 +130,24 @@ func (m *ValueMap) Load(key string) (value *VMValue, ok bool) {
 
 func (m *ValueMap) Length() int {
 	read, _ := m.read.Load().(readOnlyValueMap)
+	entries := read.m
 	if read.amended {
 		m.mu.Lock()
 		defer m.mu.Unlock()
-		return len(m.dirty)
+		read, _ = m.read.Load().(readOnlyValueMap)
+		entries = read.m
+		if read.amended {
+			entries = m.dirty
+		}
 	}
-	return len(read.m)
+	// deleted entries stay in the maps as tombstones until the next promotion; count live ones only
+	n := 0
+	for _, e := range entries {
+		if _, ok := e.load(); ok {
+			n++
+		}
+	}
+	return n
 }
 
 func (m *ValueMap) Clear() {
